@@ -9,18 +9,18 @@ The constraint solver dispatches on the number of dofs (solver.py / io.py of the
                     nv_pad 80 from nv = 64 (Newton: 63)
 A size scene is built for an exact nv on each side of every threshold, in two structurally different kinds:
 
-  "row":  k = nv // 6 free boxes lying in a grid on a (flat or 5 degree tilted) plane, 2 mm deep, no coupling between them
-          (6x6 inertia blocks, 4 contacts each), plus nv - 6k hinge dofs of a pendulum arm with violated limits.  Box sizes and
-          masses vary with the index; every third triple of boxes has stiff contacts (solimp 0.99/0.999 instead of the default
+  "row":  k = nv // 6 free bodies (box, sphere, sphere, box, ...: 4 or 1 contacts each) lying in a grid on a (flat or 5 degree
+          tilted) plane, 2 mm deep, no coupling between them (6x6 inertia blocks), plus nv - 6k hinge dofs of a pendulum arm
+          with violated limits.  Sizes and masses vary with the index; every third triple of bodies has stiff contacts (solimp 0.99/0.999 instead of the default
           0.9/0.95; box geoms have priority 1 so their values are the contact's); approach speed along the plane normal runs
-          through {0.05, 1, 3} m/s.  Three states: moving (approach + sliding + spinning), and two "pressed" states (pure normal
-          approach, the speed alphabet rotated by one between them) in which every contact row stays active from the start
+          through {0.05, 1, 3} m/s.  Four states: moving (approach + sliding + spinning), and three "pressed" states (pure normal
+          approach, the three rotations of the speed alphabet) in which every contact row stays active from the start
           point to the optimum, i.e. the solver's constraint states never change while it iterates.
   "arms": nv hinge dofs in serial arms of <= 12 links hanging from the world (12x12 dense inertia blocks, deep trees), with
           violated / margin-active joint limits, friction loss, joint equalities coupling neighbouring arms and a limited
           fixed tendon; no contacts.  States: moving, moving reversed, at rest.
 
-Only closed-form collision pairs (plane-box).
+Only closed-form collision pairs (plane-box, plane-sphere).
 """
 
 import numpy as np
@@ -37,7 +37,7 @@ SIZES = (
   (50, "last fused jv", True),
   (51, "first separate jv / Jaref accumulation (3 threads per row)", True),
   (60, "largest dense", True),
-  (61, "sparse only; 4 accumulation threads", True),
+  (61, "sparse only", True),
   (65, "sparse only; nv_pad 80", False),
 )
 DENSE_MAX = 60
@@ -48,7 +48,7 @@ ARM = 12
 
 
 def row(nv, variant=0):
-  """k = nv // 6 free boxes lying in a grid on the tilted plane, no couplings between them; nv - 6k limited hinge dofs."""
+  """k = nv // 6 free bodies lying in a grid on the plane, no couplings between them; nv - 6k limited hinge dofs; 4 states."""
   v = variant % 4
   condim = (3, 4, 3, 6)[v]
   fr = ("0.8 0.02 0.01", "0.5 0.03 0.02", "1.1 0.01 0.005", "0.3 0.05 0.01")[v]
@@ -57,23 +57,28 @@ def row(nv, variant=0):
   R = cs._quat_to_mat(tq)
   n = R[:, 2]
   k, r = divmod(nv, 6)
-  xml_b, qpos, qvel, qvel_p, qvel_q = "", [], [], [], []
+  xml_b, qpos, qvel, qvel_p = "", [], [], ([], [], [])
   for i in range(k):
     col, rw = i % 5, i // 5
     lateral = (0.6 * col - 1.2, 0.6 * rw - 0.6)
     si, di = (i // 3 + v) % 3, (i + i // 3) % 3
-    hx, hy, hz = 0.12 - 0.01 * (i % 3), 0.1 - 0.01 * (i % 2), 0.05 + 0.01 * (i % 4)
+    hx, hy, hz = 0.12 - 0.01 * (i % 2), 0.1 - 0.01 * (i % 4 // 2), 0.05 + 0.01 * (i % 4)
+    if i % 3 == 0:
+      geom = f'type="box" size="{hx:.3g} {hy:.3g} {hz:.3g}"'
+    else:
+      hz += 0.03
+      geom = f'type="sphere" size="{hz:.3g}"'
     pos = n * (hz - 0.002) + R[:, 0] * lateral[0] + R[:, 1] * lateral[1]
     xml_b += (
-      f'<body name="b{i}"><freejoint/><geom type="box" size="{hx:.3g} {hy:.3g} {hz:.3g}" condim="{condim}" friction="{fr}" priority="1" '
+      f'<body name="b{i}"><freejoint/><geom {geom} condim="{condim}" friction="{fr}" priority="1" '
       f'solimp="{SOLIMP[si]}" mass="{1.0 + 0.3 * i:.7g}"/></body>'
     )
     qpos += [float(x) for x in pos] + tq
     lat = (0.3 * ((i % 3) - 1), -0.2 * ((i % 2) * 2 - 1))
     lin = -n * VDOWN[di] + R[:, 0] * lat[0] + R[:, 1] * lat[1]
     qvel += [float(x) for x in lin] + [0.4 * ((i % 3) - 1), -0.3 * (i % 2), 0.5 * ((i + 1) % 3 - 1)]
-    qvel_p += [float(x) for x in -n * VDOWN[di]] + [0.0, 0.0, 0.0]
-    qvel_q += [float(x) for x in -n * VDOWN[(di + 1) % 3]] + [0.0, 0.0, 0.0]
+    for rot in range(3):
+      qvel_p[rot].extend([float(x) for x in -n * VDOWN[(di + rot) % 3]] + [0.0, 0.0, 0.0])
   arm = ""
   if r:
     arm, close = '<body name="arm" pos="0 0 1.5">', "</body>"
@@ -88,12 +93,12 @@ def row(nv, variant=0):
       )
       qpos.append((0.4, -0.1, -0.35)[j % 3])
       qvel.append((0.5, -1.0, 0.3)[j % 3])
-      qvel_p.append(0.0)
-      qvel_q.append(0.0)
+      for rot in range(3):
+        qvel_p[rot].append(0.0)
     arm += close
   plane = f'<geom name="floor" type="plane" size="3 3 .1" quat="{tilt}" condim="{condim}" friction="{fr}"/>'
   xml = f'<mujoco><compiler angle="radian"/><worldbody>{plane}{xml_b}{arm}</worldbody></mujoco>'
-  return xml, [(qpos, qvel), (qpos, qvel_q), (qpos, qvel_p)], dict(njmax=1024, nconmax=128)
+  return xml, [(qpos, qvel)] + [(qpos, qv) for qv in qvel_p], dict(njmax=1024, nconmax=128)
 
 
 def arms(nv, variant=0):
@@ -142,5 +147,5 @@ KINDS = {"row": row, "arms": arms}
 
 
 def build(kind, nv, variant=0):
-  """(xml, [(qpos, qvel)] * 3, make_data kwargs)"""
+  """(xml, [(qpos, qvel), ...] one per world, make_data kwargs)"""
   return KINDS[kind](nv, variant)
